@@ -77,10 +77,15 @@ def do_run(ids):
         shutil.rmtree(scr, ignore_errors=True)
         os.makedirs(scr)
         subprocess.run('git -C /repo archive HEAD | tar -x -C %s' % scr, shell=True, check=True)
-        pd = os.path.join(d, 'patch.diff')
-        a = subprocess.run(['git', 'apply', '--directory', scr, '--unsafe-paths', pd], capture_output=True, text=True, cwd='/')
-        if a.returncode != 0:
-            a = subprocess.run(['patch', '-p1', '--fuzz=3', '-d', scr, '-i', pd], capture_output=True, text=True)
+        for pd in (os.path.join(d, 'patch.diff'), os.path.join(d, 'patch.rebased.diff')):
+            if not os.path.exists(pd):
+                continue
+            a = subprocess.run(['git', 'apply', '--directory', scr, '--unsafe-paths', pd], capture_output=True, text=True, cwd='/')
+            if a.returncode != 0:
+                a = subprocess.run(['patch', '-p1', '--fuzz=3', '-d', scr, '-i', pd], capture_output=True, text=True)
+            if a.returncode == 0:
+                break
+            subprocess.run('rm -rf %s && mkdir %s && git -C /repo archive HEAD | tar -x -C %s' % (scr, scr, scr), shell=True, check=True)
         if a.returncode != 0:
             rows.append((meta['seed'], pid, 'n/a', 'patch no longer applies to HEAD (the code it changed was since repaired)', meta['title']))
             print(rows[-1]); continue
